@@ -53,12 +53,15 @@ THEOREMS = [
     "PorepyVerif.C07.schurSolve_eq_full_solve",
     "PorepyVerif.C07.assembleSplit_reduced",
     "PorepyVerif.C07.model_schurSolve_solves_full",
+    "PorepyVerif.C07.storedInv_run",
+    "PorepyVerif.C07.history_expand_solves",
+    "PorepyVerif.C07.failed_split_keeps_state",
 ]
 LEAN_MODULES = ["PorepyVerif.C07.Props"]
 LEAN_DIRS = ["C37"]  # Model imports C37.Model (Gauss-Jordan), Lemmas import C37.Lemmas (its correctness proof)
 AUDIT = "PorepyVerif/C07/Audit.lean"
 DRIVER = "PorepyVerif/C07/Driver.lean"
-N = {"quick": 40, "thorough": 800}
+N = {"quick": 30, "thorough": 800}
 RULE = ("md-grids with 1-3 subdomains (dim 0-2, 1-3 cells, instantiated in random order) and 0-2 mortar grids; 2-4 cell variables on "
         "random sub-lists of the subdomains (+0-2 on interfaces); per variable 1-2 equations (its grids split in groups) with a dominant "
         "cell-wise diagonal term, cell-wise linear and bilinear couplings to co-located variables (local: the secondary block is a permuted "
@@ -68,7 +71,7 @@ RULE = ("md-grids with 1-3 subdomains (dim 0-2, 1-3 cells, instantiated in rando
         "splits, malformed requests (unknown equation, grid outside the equation's domain, foreign grid, empty / complete equation or "
         "variable lists, unknown variable name, duplicated variable), each with the default inverter, np.linalg.inv or an exact rational "
         "inverter; after most splits the reduced system is solved and expanded, plus expansions of arbitrary vectors, of wrong-size vectors "
-        "and before any assembly. non-trivial = at least two admissible splits with different secondary blocks on the instance, one of them "
+        "and before any assembly; 15 % of the splits repeat an earlier request of the instance (cached permutation of the default inverter). non-trivial = at least two admissible splits with different secondary blocks on the instance, one of them "
         "with the default inverter; distinct = distinct cases")
 TRUSTED = [
     "modelled, not verified: evaluation of the AD operators (the Jacobian/residual given to the model are computed in closed form by the "
@@ -94,7 +97,12 @@ EXPLANATION = ("FULL (algebra) + CORE (bookkeeping, inverter): Mathlib-Matrix th
                "whenever assembleSplit answers, the secondary block is invertible, the stored inverse is its Mathlib inverse and (S, rhs_S) is the "
                "Schur complement system (assembleSplit_reduced); whenever schurSolve answers, J X = r (schurSolve_solves_full, "
                "model_schurSolve_solves_full on the model's own row/column lists) and X = J^-1 r if J is invertible "
-               "(schurSolve_eq_full_solve) - no invertibility hypothesis and no run-time certificate. Equations registered with an "
+               "(schurSolve_eq_full_solve) - no invertibility hypothesis and no run-time certificate. The calls are a state machine (mstep: new "
+               "iterate, split with optional `state` argument and all error branches in code order, expand, solve-and-expand; the driver runs "
+               "exactly this function): history_expand_solves proves for EVERY history that solve-and-expand answers the solution of the full "
+               "system the stored data was assembled from (never mixed with a later iterate, a failed call or another split), "
+               "failed_split_keeps_state that a failing call changes nothing. Remaining input condition: no variable named twice in a request. "
+               "Not proved: completeness of the elimination (invertible block => the model answers; exercised by the correspondence check). Equations registered with an "
                "empty grid list are modelled (0 rows; a grid-restricted request for them raises ValueError in "
                "_gridbased_equation_complement). "
                "Correspondence compares S, rhs, b_s, A_sp, column sets, assembled_equation_indices and expanded vectors of the real code with the "
@@ -334,14 +342,20 @@ class World:
     def set_state(self, x):
         self.es.set_variable_values(np.array([float(Fraction(v)) for v in x]), iterate_index=0)
 
-    def full(self):
-        J, r = self.es.assemble()
+    def full(self, state=None):
+        if state is None:
+            J, r = self.es.assemble()
+        else:
+            J, r = self.es.assemble(state=np.array([float(Fraction(v)) for v in state]))
         return J.toarray(), np.asarray(r)
 
     def split(self, step):
         with warnings.catch_warnings():
             warnings.simplefilter("ignore")
-            S, rhs = self.es.assemble_schur_complement_system(self.eq_arg(step), self.var_arg(step), inverter=self.inverter(step["inverter"]))
+            kw = {}
+            if step.get("state") is not None:  # the `state` argument: linearise at this vector instead of the stored iterate
+                kw["state"] = np.array([float(Fraction(v)) for v in step["state"]])
+            S, rhs = self.es.assemble_schur_complement_system(self.eq_arg(step), self.var_arg(step), inverter=self.inverter(step["inverter"]), **kw)
         return (S.toarray() if hasattr(S, "toarray") else np.asarray(S)), np.asarray(rhs)
 
     def expand(self, x):
@@ -403,10 +417,11 @@ def _impl_run(case):
             cols = w.stored_cols()
             last = (S, rhs)
             cS = _cond(S) if S.shape[0] == S.shape[1] else 1.0
+            cJ = condJ if step.get("state") is None else _cond(w.full(step["state"])[0])
             out.append({"S": [[float(v) for v in row] for row in S], "rhs": [float(v) for v in rhs],
                         "bs": [frac(v) for v in bs], "Asp": [[frac(v) for v in row] for row in Asp.toarray()],
                         "pcols": cols[0], "scols": cols[1], "eqidx": eqidx,
-                        "_cond": max(cS, _cond(inv.toarray()), condJ)})
+                        "_cond": max(cS, _cond(inv.toarray()), cJ)})
         else:
             try:
                 if step.get("solve"):
@@ -439,7 +454,11 @@ def model_ops(case):
                 eqs = [k for k, _ in step["eqs"]]
             else:
                 eqs = [[k, list(grids)] for k, grids, _ in step["eqs"]]
-            ops.append({"op": "split", "form": step["form"], "eqs": eqs, "vars": [[n, g] for n, g, _ in step["vars"]]})
+            op = {"op": "split", "form": step["form"], "eqs": eqs, "vars": [[n, g] for n, g, _ in step["vars"]]}
+            if step.get("state") is not None:
+                J, r = closed_form(case, lay, step["state"])
+                op["J"], op["r"] = [[frac(v) for v in row] for row in J], [frac(v) for v in r]
+            ops.append(op)
         else:
             ops.append({k: v for k, v in step.items() if k in ("op", "x", "solve")})
     return ops
@@ -571,10 +590,11 @@ def _oracle(case):
         elif kind == "split":
             cls = classify(case, lay, step)
             inv = step["inverter"]
+            Js, rs = (J, r) if step.get("state") is None else w.full(step["state"])  # the system this call linearises
             singular = False
             if cls[0] == "square":
                 sr, sc = sorted(cls[2]), sorted(cls[4])
-                singular = _frac_inverse([[Fraction(float(J[a, b])) for b in sc] for a in sr]) is None
+                singular = _frac_inverse([[Fraction(float(Js[a, b])) for b in sc] for a in sr]) is None
             got = None
             try:
                 S, rhs = w.split(step)
@@ -587,21 +607,21 @@ def _oracle(case):
                 continue
             if singular:
                 if got is None:
-                    stored = (sorted(cls[2]), cls[3], sorted(cls[4]), J, r, False)
+                    stored = (sorted(cls[2]), cls[3], sorted(cls[4]), Js, rs, False)
                 continue
             if got is not None:
                 return {"what": f"step {i}: admissible split ({step.get('kind')}, {inv} inverter, square invertible secondary block) raised {got}",
                         "key": f"admissible-split-raises-{got}-{inv}"}
             reliable = cls[0] == "square"
-            stored = (sorted(cls[2]), cls[3], sorted(cls[4]), J, r, reliable)
+            stored = (sorted(cls[2]), cls[3], sorted(cls[4]), Js, rs, reliable)
             if not reliable:
                 continue
             if S.shape != (len(cls[3]), len(cls[3])) or rhs.shape != (len(cls[3]),):
                 return {"what": f"step {i}: reduced system has shape {S.shape}, expected {len(cls[3])} primary unknowns", "key": f"reduced-shape-{inv}"}
-            if max(_cond(J), _cond(S), _cond(J[np.ix_(sorted(cls[2]), sorted(cls[4]))])) >= COND_MAX:
+            if max(_cond(Js), _cond(S), _cond(Js[np.ix_(sorted(cls[2]), sorted(cls[4]))])) >= COND_MAX:
                 continue
             X = w.expand(np.linalg.solve(S, rhs))
-            Xf = np.linalg.solve(J, r)
+            Xf = np.linalg.solve(Js, rs)
             if not _allclose(X, Xf):
                 return {"what": f"step {i}: expanded Schur solution ({step.get('kind')}, {inv} inverter) differs from the full solve by "
                                 f"{float(np.max(np.abs(X - Xf))):.3g}", "key": f"expanded-differs-from-full-solve-{inv}"}
@@ -926,6 +946,13 @@ def gen_case(rng, tier):
         if rng.random() < 0.12:
             steps.append(_gen_state(rng, lay.ndof))
         s = _gen_split(rng, case)
+        earlier = [t for t in steps if t["op"] == "split"]
+        if earlier and rng.random() < 0.15:  # the same request again (cache hit of the default inverter, possibly at another iterate)
+            s = json.loads(json.dumps(rng.choice(earlier)))
+            s.pop("state", None)
+            s["inverter"] = rng.choice(["default", "default", s["inverter"]])
+        if rng.random() < 0.15:
+            s["state"] = _gen_state(rng, lay.ndof)["x"]
         steps.append(s)
         cls = classify(case, lay, s)
         if cls[0] in ("square", "dup"):
@@ -993,9 +1020,49 @@ def stats(cases, impl_outs):
                     ill += 1
             elif s["op"] == "expand":
                 nexp += 1
+    strata = {"systems_with_empty_grid_equation": 0, "splits_with_state_argument": 0, "expands_on_stale_data_after_failed_split": 0,
+              "expands_after_state_change": 0, "dict_all_grids": 0, "dict_some_grids": 0, "dict_no_grids": 0, "duplicate_variable_requests": 0,
+              "repeated_identical_split": 0, "expand_before_any_assembly": 0, "expand_wrong_size": 0, "interface_variable_primary": 0}
+    for c, out in zip(cases, impl_outs):
+        if not isinstance(out, list):
+            continue
+        lay = Layout(c)
+        strata["systems_with_empty_grid_equation"] += any(not e["grids"] for e in c["eqs"])
+        ok_seen, failed_since_ok, state_since_ok, seen_req = False, False, False, set()
+        for st_, o in zip(c["steps"], out):
+            if st_["op"] == "state":
+                state_since_ok = True
+            elif st_["op"] == "split":
+                strata["splits_with_state_argument"] += st_.get("state") is not None
+                key = json.dumps([st_["form"], st_["eqs"], st_["vars"]], sort_keys=True)
+                strata["repeated_identical_split"] += key in seen_req
+                seen_req.add(key)
+                cls = classify(c, lay, st_)
+                strata["duplicate_variable_requests"] += cls[0] == "dup"
+                if st_["form"] == "dict":
+                    for k, grids, _ in st_["eqs"]:
+                        if k < len(c["eqs"]):
+                            full = set(c["eqs"][k]["grids"])
+                            strata["dict_no_grids"] += not grids
+                            strata["dict_all_grids"] += bool(grids) and set(grids) == full
+                            strata["dict_some_grids"] += bool(grids) and set(grids) < full
+                if any(c["grids"][g]["kind"] == "intf" for n, G, _ in st_["vars"] for g in (G if G is not None else lay.var_grids.get(n, [])) if g < len(c["grids"])):
+                    strata["interface_variable_primary"] += 1
+                if "err" in o:
+                    failed_since_ok = failed_since_ok or ok_seen
+                else:
+                    ok_seen, failed_since_ok, state_since_ok = True, False, False
+            else:
+                if not ok_seen:
+                    strata["expand_before_any_assembly"] += 1
+                elif "err" in o:
+                    strata["expand_wrong_size"] += 1
+                else:
+                    strata["expands_on_stale_data_after_failed_split"] += failed_since_ok
+                    strata["expands_after_state_change"] += state_since_ok
     hist = {}
     for k in per_inst:
         hist[str(k)] = hist.get(str(k), 0) + 1
     return {"splits": nsplit, "expands": nexp, "split_kinds": kinds, "forms": forms, "inverters": inverters, "split_outcomes": outcome,
-            "ill_conditioned_splits_not_value_compared": ill, "distinct_admissible_splits_per_instance": hist,
+            "ill_conditioned_splits_not_value_compared": ill, "strata": {k: int(v) for k, v in strata.items()}, "distinct_admissible_splits_per_instance": hist,
             "dofs": {"min": min((Layout(c).ndof for c in cases), default=0), "max": max((Layout(c).ndof for c in cases), default=0)}}
